@@ -29,6 +29,15 @@ PROPS = {
         trusted=COMMON_TRUST),
 }
 
+PROPS['C08'] = dict(
+    level='other',
+    claim='Bounded contract check: function contracts (well-formed CRS out, dense view equals the defining formula) enforced by CBMC on the real kernel bodies for ALL inputs up to a stated size (pattern and values symbolic); index-safety/frame obligations included. Bounded stand-in, not a proof: loop invariants over marker arrays / counting sorts need quantifiers CBMC cannot use here.',
+    note='Bounds per unit are listed in the evidence. Values at a commutative ring (int32) so that the dense definition is order independent.',
+    technique='CBMC code contracts (dfcc) on extracted bodies, loops unwound with unwinding assertions (bounded); spec = dense view',
+    explanation='Contracts on sparse kernels enforced for all inputs up to the bound; see units[].mode for the bound of each unit.',
+    decided=[], not_decided=['Gershgorin bound vs true spectral radius (theorem about the formula)', 'power-method bound'],
+    trusted=COMMON_TRUST)
+
 NOT_APPLICABLE = {
     'C01': 'units not built yet (planned: typestate contracts on the solver bodies)',
     'C02': 'units not built yet (planned: typestate + trace contracts on amg::cycle/apply)',
